@@ -353,7 +353,7 @@ func normSnap(rig *proc.Rig) string {
 func observations(rng *rand.Rand, pool, pool2 []int, serial uint64) {
 	rig, err := proc.New(proc.Options{Key: vlib.Key(proc.NodeKey)})
 	if err != nil {
-		r.Inconclusive("rig: " + err.Error())
+		r.InconclusiveCase("rig: " + err.Error())
 		return
 	}
 	defer rig.Close()
